@@ -17,7 +17,9 @@ struct Obs {
     comments: Vec<(String, usize, usize)>,
     tags: Vec<(String, Vec<(String, String, Option<(usize, usize)>, Option<(usize, usize)>, String, bool, Option<String>)>, usize, usize, String)>,   // attrs: name, value, name loc, value loc, name(), has_attribute(name()), get_attribute(name())
     sink: Vec<(Option<&'static Encoding>, Vec<u8>)>,               // set_encoding(e) | chunk
-    probes: Vec<(usize, bool, bool)>,                              // element start, has_attribute("naïve") before and after the other lookups
+    probes: Vec<(usize, bool, bool)>,
+    not_unencodable: usize,                                        // elements matched by :not(<a type name no element has>)
+    is_unencodable: usize,                                         // elements matched by that type name itself                              // element start, has_attribute("naïve") before and after the other lookups
 }
 struct Sink(Rc<RefCell<Obs>>);
 impl OutputSink for Sink {
@@ -61,6 +63,7 @@ pub fn run_case(line: &str) {
     let encs = &lol_html::test_utils::ASCII_COMPATIBLE_ENCODINGS;
     let enc0: &'static Encoding = encs[geti(&m, "enc", 23) % encs.len()];
     let meta = getb(&m, "meta");
+    let sparse = getb(&m, "sparse");
     let ins: Option<String> = m.get("ins").filter(|v| v.as_str() != "-").map(|v| String::from_utf8(unhex(v)).unwrap());
     let endins: Option<String> = m.get("endins").filter(|v| v.as_str() != "-").map(|v| String::from_utf8(unhex(v)).unwrap());
     let ops = parse_ops(m.get("ops").map(|s| s.as_str()).unwrap_or("E"));
@@ -81,10 +84,18 @@ pub fn run_case(line: &str) {
             if let Some(s) = &ins2 { e.before(s, ContentType::Html); }
             Ok(())
         })))
-        .append_document_content_handler(DocumentContentHandlers::default()
-            .text(move |t: &mut TextChunk<'_>| { let (a, b) = rng(t.source_location()); o2.borrow_mut().text.push((t.as_str().to_string(), t.last_in_text_node(), a, b)); Ok(()) })
-            .comments(move |c: &mut Comment<'_>| { let (a, b) = rng(c.source_location()); o3.borrow_mut().comments.push((c.text().to_string(), a, b)); Ok(()) })
-            .end({ let e2 = endins.clone(); move |e: &mut lol_html::html_content::DocumentEnd<'_>| { if let Some(s) = &e2 { e.append(s, ContentType::Html); } Ok(()) } }))
+        // a type selector whose name most encodings cannot represent: no element has that name, so :not(name) matches every element (C04)
+        .append_element_content_handler((Cow::Owned(":not(\u{65e5}\u{672c}\u{194})".parse::<Selector>().unwrap()), ElementContentHandlers::default().element({ let o = obs.clone(); move |_e: &mut Element<'_, '_>| { o.borrow_mut().not_unencodable += 1; Ok(()) } })))
+        .append_element_content_handler((Cow::Owned("\u{65e5}\u{672c}\u{194}".parse::<Selector>().unwrap()), ElementContentHandlers::default().element({ let o = obs.clone(); move |_e: &mut Element<'_, '_>| { o.borrow_mut().is_unencodable += 1; Ok(()) } })))
+        .append_document_content_handler({
+            // sparse=1: no text / comment handlers, so that nothing is lexed between tags (encoding switches must not wait for a token)
+            let mut d = DocumentContentHandlers::default();
+            if !sparse {
+                d = d.text(move |t: &mut TextChunk<'_>| { let (a, b) = rng(t.source_location()); o2.borrow_mut().text.push((t.as_str().to_string(), t.last_in_text_node(), a, b)); Ok(()) })
+                     .comments(move |c: &mut Comment<'_>| { let (a, b) = rng(c.source_location()); o3.borrow_mut().comments.push((c.text().to_string(), a, b)); Ok(()) });
+            }
+            d.end({ let e2 = endins.clone(); move |e: &mut lol_html::html_content::DocumentEnd<'_>| { if let Some(s) = &e2 { e.append(s, ContentType::Html); } Ok(()) } })
+        })
         .with_encoding(AsciiCompatibleEncoding::new(enc0).unwrap())
         .with_adjust_charset_on_meta_tag(meta);
     let mut rw = Some(HtmlRewriter::new(settings, Sink(obs.clone())));
@@ -146,6 +157,7 @@ pub fn run_case(line: &str) {
         let mut cur = 0usize;
         for (a, b) in toks.iter().chain(std::iter::once(&(input.len(), input.len()))) { if *a > cur { gaps.push((cur, *a)); } cur = (*b).max(cur); }
         let mut i = 0;
+        if sparse { gaps.clear(); }      // no text handler: text is not captured, it passes through as raw bytes
         for (start, end) in gaps {
             let mut s = String::new();
             let mut prev_end = start;
@@ -244,6 +256,7 @@ pub fn run_case(line: &str) {
     for b in bad.iter().take(3) { outln!("X c13-bad {}", b.replace('\n', " ")); }
     for b in bad14.iter().take(3) { outln!("X c14-bad {}", b.replace('\n', " ")); }
     for b in bad16.iter().take(3) { outln!("X c16-bad {}", b.replace('\n', " ")); }
+    if all_ok && (o.not_unencodable != o.tags.len() || o.is_unencodable != 0) { outln!("X c04-bad :not(<name no element has>) matched {} of {} elements, the name itself {} ({})", o.not_unencodable, o.tags.len(), o.is_unencodable, enc0.name()); }
     outln!("X c13-stats enc={} nodes={} chunks={} long={} nonascii={} malformed={} tags={} comments={} switched={}", enc0.name(), n_nodes, n_chunks, n_long, n_nonascii, n_malformed,
         o.tags.len(), o.comments.len(), matches!(switch, Some((p, e)) if p != usize::MAX && e != enc0) as u8);
     outln!(".");
